@@ -257,6 +257,16 @@ def main(argv=None):
         print("not reproduced")
         return 0
 
+    # counterexample files of earlier runs of this property are stale
+    od = os.path.join(OUT, pid)
+    if os.path.isdir(od):
+        for fn in os.listdir(od):
+            if fn.startswith(("cex-", "replay-")):
+                try:
+                    os.remove(os.path.join(od, fn))
+                except OSError:
+                    pass
+
     from . import loader
 
     loader.install()
@@ -298,7 +308,7 @@ def main(argv=None):
         if len(recs) > max_path_replays:
             recs = rnd.sample(recs, max_path_replays)
         for p in recs:
-            items.append({"kind": "path", "harness": r["harness"], "config": r["config"], "inputs": p["inputs"], "inputs_alt": p.get("inputs_alt"), "obs": p["obs"]})
+            items.append({"kind": "path", "harness": r["harness"], "config": r["config"], "inputs": p["inputs"], "inputs_alt": p.get("inputs_alt"), "obs": p["obs"], "uf": p.get("uf", False)})
     rep = run_replays(pid, items, args.jobs) if items else []
 
     violations = []
@@ -307,6 +317,7 @@ def main(argv=None):
     replay_ok = 0
     replay_mismatch = []
     replay_skipped = 0
+    replay_uf_skipped = 0
     for it, rr in zip(items, rep):
         if it["kind"] == "cex":
             reproduced = rr["status"] == "ok" and any(f["label"] == it["label"] for f in rr["failed"])
@@ -327,7 +338,12 @@ def main(argv=None):
                 else:
                     replay_mismatch.append({"item": it, "replay": rr})
                 continue
-            if rr["failed"] or not rr.get("obs_agree", True):
+            if it.get("uf") and not rr["failed"] and not rr.get("obs_agree", True):
+                # the path condition involves uninterpreted exp2/log2/sqrt/Phi: the solver's
+                # model of those functions need not be realisable in float arithmetic, so the
+                # concrete run may legitimately take another path (DESIGN.md 2.6)
+                replay_uf_skipped += 1
+            elif rr["failed"] or not rr.get("obs_agree", True):
                 # a path whose symbolic claims were all discharged must not fail concretely,
                 # unless this path is the one a candidate came from
                 replay_mismatch.append({"item": {k: it[k] for k in ("harness", "config", "inputs")}, "replay": rr})
@@ -453,6 +469,7 @@ def main(argv=None):
                 "harnesses": hsum,
                 "known_findings_seen": sorted(known_seen),
                 "replay_skipped_precondition": replay_skipped,
+                "replay_skipped_uf_model_not_realisable": replay_uf_skipped,
                 "inconclusive": problems[:20],
             },
             "assumptions": getattr(mod, "ASSUMPTIONS", [])
